@@ -32,9 +32,43 @@ SPECIAL32 = [0, 1 << 31, 1, (1 << 31) | 1, 0x007FFFFF, 0x00800000, 0x3F800000, 0
              0x7F800000, 0xFF800000, 0x7FC00000, 0x7F800001, 0xFFC00000, 0x3F000000, 0x40400000, 0x4B000000, 0x33800000, 0x34000000]
 
 
+def harvested_floats(w):
+    """float literals of the current source (and their negatives, neighbours) as bit patterns of width w"""
+    import struct, re, os
+    from . import harvest
+    key = "_f%d" % w
+    if not hasattr(harvested_floats, key):
+        vals = set()
+        for root, _, files in os.walk(os.path.join(C.REPO, "src")):
+            for f in files:
+                if f.endswith(".rs") and f != "ziggurat_tables.rs":
+                    src = harvest.strip_comments(open(os.path.join(root, f), errors="replace").read())
+                    for m in re.finditer(r"(?<![\w.])([0-9][0-9_]*\.[0-9][0-9_]*(?:[eE][+-]?[0-9]+)?|[0-9][0-9_]*[eE][+-]?[0-9]+|[0-9][0-9_]*\.(?![\w.]))(?:_?f(?:32|64))?", src):
+                        try:
+                            vals.add(float(m.group(1).replace("_", "")))
+                        except ValueError:
+                            pass
+        out = set()
+        for x in vals:
+            for y in (x, -x, 1 / x if x else 0.0, x * x, x / 2, 2 * x):
+                try:
+                    b = f64b(y) if w == 64 else f32b(y)
+                except (OverflowError, struct.error):
+                    continue
+                for d in (-1, 0, 1):
+                    out.add((b + d) & ((1 << w) - 1))
+        setattr(harvested_floats, key, sorted(out))
+    return getattr(harvested_floats, key)
+
+
 def any_f(r, w):
     """a bit pattern of every class, edge biased"""
-    k = r.below(12)
+    k = r.below(13)
+    if k == 12:
+        hv = harvested_floats(w)
+        if hv:
+            return hv[r.below(len(hv))]
+        k = 11
     if w == 64:
         if k < 3:
             return r.choice(SPECIAL64)
